@@ -20,9 +20,14 @@ func main() {
 	out := flag.String("out", "", "result file")
 	drv := flag.String("ppdrv", "", "path of the model driver")
 	replay := flag.String("replay", "", "replay file")
+	det := flag.Uint64("det", 0, "print the determinism digest for this seed and exit")
 	flag.Bool("search", false, "search mode: a proof or correspondence broke, look harder for a failing input")
 	flag.Parse()
 	log.SetOutput(io.Discard)
+	if *det != 0 {
+		fmt.Println(detDigest(*det))
+		return
+	}
 	if flag.NArg() != 1 {
 		fmt.Fprintln(os.Stderr, "usage: harness [flags] <property>")
 		os.Exit(2)
@@ -68,7 +73,7 @@ func main() {
 }
 
 func init() {
-	for _, p := range []string{"C04", "C05", "C06", "C12", "C13"} {
+	for _, p := range []string{"C04", "C05", "C12", "C13"} {
 		props[p] = runAgg
 	}
 }
